@@ -142,7 +142,8 @@ def run(ctx):
         for setup, reqs in boundary_programs():
             pass
         inp = os.path.join(ctx.work, "hostile.jsonl")
-        vlib.write_jsonl(inp, [{"b": list(b)} for b in inputs])
+        # ... and array headers nested far deeper than any stack allows (generated inside the probe: 17 MB)
+        vlib.write_jsonl(inp, [{"b": list(b)} for b in inputs] + [{"gen": {"gen": "nest", "unit": "*1\r\n", "n": 4200000, "tail": ""}}])
         trace = os.path.join(ctx.work, "crashprobe.ndjson")
         p = ctx.harness(["crashprobe", "--inputs", inp, "--out", trace], timeout=1800, ok_codes=tuple(range(0, 256)))
         counts["process_level_inputs"] = len(inputs)
